@@ -78,6 +78,8 @@ enum Op {
     LPurge,
     Sub(bool),
     Bmp,
+    Mrt,
+    Watch(bool, bool),
     Unsub,
 }
 
@@ -86,6 +88,7 @@ struct Case {
     gran: u8,
     limit: u32,
     threads: Vec<(bool, Vec<Op>)>, // (is_writer, ops)
+    addpath: Vec<bool>,            // per thread: an ADD-PATH peer (`wa`)
     sched: Vec<usize>,
 }
 
@@ -102,14 +105,16 @@ fn parse_case(line: &str) -> Option<Case> {
         return None;
     }
     let mut ths = Vec::new();
+    let mut aps = Vec::new();
     for (me, th) in tl.iter().enumerate() {
         let l = th.as_list()?;
         let kind = l.first()?.as_atom()?;
         let writer = match kind {
-            "w" => true,
+            "w" | "wa" => true,
             "s" => false,
             _ => return None,
         };
+        aps.push(kind == "wa");
         let mut ops = Vec::new();
         for o in &l[1..] {
             let op = match (o.head()?, o) {
@@ -123,6 +128,11 @@ fn parse_case(line: &str) -> Option<Case> {
                 ("lpurge", Term::Atom(_)) => Op::LPurge,
                 ("unsub", Term::Atom(_)) => Op::Unsub,
                 ("bmp", Term::Atom(_)) => Op::Bmp,
+                ("mrt", Term::Atom(_)) => Op::Mrt,
+                ("watch", _) => {
+                    let [i, po] = o.tagged("watch")? else { return None };
+                    Op::Watch(i.as_bool()?, po.as_bool()?)
+                }
                 ("sr", _) => {
                     let [p] = o.tagged("sr")? else { return None };
                     let p = p.as_u64()? as usize;
@@ -162,7 +172,7 @@ fn parse_case(line: &str) -> Option<Case> {
                 }
                 _ => return None,
             };
-            let is_sub_op = matches!(op, Op::Sub(_) | Op::Unsub | Op::Bmp);
+            let is_sub_op = matches!(op, Op::Sub(_) | Op::Unsub | Op::Bmp | Op::Mrt | Op::Watch(..));
             if is_sub_op == writer {
                 return None;
             }
@@ -181,7 +191,7 @@ fn parse_case(line: &str) -> Option<Case> {
         }
     }
     // a BMP connection of a peer without ADD-PATH carries no path ids: such cases use path id 0 only
-    let has_bmp = ths.iter().any(|(_, ops)| ops.iter().any(|o| matches!(o, Op::Bmp)));
+    let has_bmp = ths.iter().any(|(_, ops)| ops.iter().any(|o| matches!(o, Op::Bmp | Op::Mrt | Op::Watch(..))));
     let has_pid = ths
         .iter()
         .any(|(_, ops)| ops.iter().any(|o| matches!(o, Op::Ins(_, _, p, _) | Op::Rem(_, _, p) if *p != 0)));
@@ -192,7 +202,7 @@ fn parse_case(line: &str) -> Option<Case> {
     for s in sched.tagged("sched")? {
         sc.push(s.as_u64()? as usize);
     }
-    Some(Case { nshards, gran: gran as u8, limit: limit as u32, threads: ths, sched: sc })
+    Some(Case { nshards, gran: gran as u8, limit: limit as u32, threads: ths, addpath: aps, sched: sc })
 }
 
 /// Keys in order of first mention (ins / rem) in the case.
@@ -525,6 +535,202 @@ struct SubRec {
 enum SubKind {
     Chan(SubRec),
     Bmp(Serve),
+    Mrt(MrtRun),
+    Watch(WatchRun, bool, bool),
+}
+
+/// the peer and prefix of the marker route inserted after all threads have finished: every
+/// consumer task has processed its whole channel once the marker has come out of it
+const MARKER_PEER: usize = 249;
+const MARKER_PREFIX: u8 = 127;
+fn is_marker(a: &IpAddr) -> bool {
+    *a == peer_addr(MARKER_PEER)
+}
+
+// ---------------------------------------------------------------- the REAL MrtDumper::serve (updates mode)
+struct MrtRun {
+    rt: tokio::runtime::Runtime,
+    fut: Option<std::pin::Pin<Box<dyn std::future::Future<Output = ()> + Send>>>,
+    path: std::path::PathBuf,
+    cancel: tokio_util::sync::CancellationToken,
+}
+
+/// one BGP4MP record: (peer address, ADD-PATH subtype, the BGP messages in it); None = bad framing
+type MrtRec = (IpAddr, bool, Vec<bgp::Message>);
+
+impl MrtRun {
+    fn start(tables: TableHandle) -> MrtRun {
+        static SEQ: AtomicUsize = AtomicUsize::new(0);
+        let rt = tokio::runtime::Builder::new_current_thread().enable_all().build().expect("tokio runtime");
+        let path = std::env::temp_dir().join(format!(
+            "verif-c18-{}-{}.mrt",
+            std::process::id(),
+            SEQ.fetch_add(1, std::sync::atomic::Ordering::Relaxed)
+        ));
+        let file = tokio::fs::File::from_std(std::fs::File::create(&path).expect("create mrt file"));
+        let cancel = tokio_util::sync::CancellationToken::new();
+        let (c2, name) = (cancel.clone(), path.to_string_lossy().to_string());
+        let fut: std::pin::Pin<Box<dyn std::future::Future<Output = ()> + Send>> = Box::pin(async move {
+            let mut d = crate::mrt::MrtDumper::new(&name, 0);
+            let _ = d.serve(file, c2, tables).await;
+        });
+        let mut m = MrtRun { rt, fut: Some(fut), path, cancel };
+        // the first poll runs serve up to its event loop: tables.subscribe(false) happens here
+        let MrtRun { rt, fut, .. } = &mut m;
+        let f = fut.as_mut().unwrap();
+        rt.block_on(async {
+            let _ = futures::poll!(f.as_mut());
+        });
+        m
+    }
+
+    fn read(&self) -> Option<Vec<MrtRec>> {
+        let buf = std::fs::read(&self.path).ok()?;
+        let mut out = Vec::new();
+        let mut i = 0usize;
+        while i < buf.len() {
+            if buf.len() - i < 12 {
+                return Some(out); // a record still being written
+            }
+            let ty = u16::from_be_bytes([buf[i + 4], buf[i + 5]]);
+            let sub = u16::from_be_bytes([buf[i + 6], buf[i + 7]]);
+            let len = u32::from_be_bytes([buf[i + 8], buf[i + 9], buf[i + 10], buf[i + 11]]) as usize;
+            if i + 12 + len > buf.len() {
+                return Some(out);
+            }
+            let b = &buf[i + 12..i + 12 + len];
+            i += 12 + len;
+            if ty != 16 || !(sub == 4 || sub == 9) || b.len() < 12 {
+                return None;
+            }
+            let afi = u16::from_be_bytes([b[10], b[11]]);
+            let (addr, off) = match afi {
+                1 if b.len() >= 20 => (IpAddr::V4(Ipv4Addr::new(b[12], b[13], b[14], b[15])), 20),
+                2 if b.len() >= 44 => {
+                    let mut o = [0u8; 16];
+                    o.copy_from_slice(&b[12..28]);
+                    (IpAddr::V6(Ipv6Addr::from(o)), 44)
+                }
+                _ => return None,
+            };
+            let ap = sub == 9;
+            let mut codec = bgp::PeerCodec::new();
+            for f in FAMS {
+                codec.set_family(f, bgp::FamilyState { addpath_rx: ap, addpath_tx: ap, ..Default::default() });
+            }
+            let mut bb = bytes::BytesMut::from(&b[off..]);
+            let msgs: Vec<bgp::Message> = match codec.try_parse(&mut bb) {
+                Ok(Some(p)) => match bgp::validate_message(p, false) {
+                    Ok(it) => it.collect(),
+                    Err(_) => return None,
+                },
+                _ => return None,
+            };
+            if !bb.is_empty() {
+                return None;
+            }
+            out.push((addr, ap, msgs));
+        }
+        Some(out)
+    }
+
+    /// Let serve write every record up to the marker route's, then cancel it.
+    fn finish(mut self) -> Option<Vec<MrtRec>> {
+        let deadline = std::time::Instant::now() + StdDuration::from_secs(15);
+        let mut recs;
+        loop {
+            {
+                let MrtRun { rt, fut, .. } = &mut self;
+                if let Some(f) = fut.as_mut() {
+                    let done = rt.block_on(async {
+                        tokio::select! {
+                            _ = f.as_mut() => true,
+                            _ = tokio::time::sleep(StdDuration::from_micros(300)) => false,
+                        }
+                    });
+                    if done {
+                        *fut = None;
+                    }
+                }
+            }
+            recs = self.read();
+            let seen = recs.as_ref().map(|r| r.iter().any(|(a, _, _)| is_marker(a))).unwrap_or(true);
+            if seen || self.fut.is_none() || std::time::Instant::now() > deadline {
+                break;
+            }
+        }
+        self.cancel.cancel();
+        {
+            let MrtRun { rt, fut, .. } = &mut self;
+            if let Some(f) = fut.as_mut() {
+                rt.block_on(async {
+                    let _ = tokio::time::timeout(StdDuration::from_secs(5), f.as_mut()).await;
+                });
+            }
+            let _g = rt.enter();
+            *fut = None;
+        }
+        let _ = std::fs::remove_file(&self.path);
+        recs
+    }
+}
+
+// ---------------------------------------------------------------- the REAL gRPC watch_event handler
+struct WatchRun {
+    rt: tokio::runtime::Runtime,
+    svc: grpc::GrpcService,
+    stream: std::pin::Pin<Box<dyn Stream<Item = Result<api::WatchEventResponse, tonic::Status>> + Send + 'static>>,
+    got: Vec<api::WatchEventResponse>,
+}
+
+impl WatchRun {
+    fn start(tables: TableHandle, global: GlobalHandle, init: bool, post: bool) -> Option<WatchRun> {
+        use api::watch_event_request::table::filter::Type;
+        let rt = tokio::runtime::Builder::new_current_thread().enable_all().build().expect("tokio runtime");
+        let (atx, _arx) = mpsc::unbounded_channel();
+        let svc = grpc::GrpcService::new(Arc::new(tokio::sync::Notify::new()), atx, global, tables);
+        let req = api::WatchEventRequest {
+            peer: Some(api::watch_event_request::Peer {}),
+            table: Some(api::watch_event_request::Table {
+                filters: vec![api::watch_event_request::table::Filter {
+                    r#type: if post { Type::PostPolicy as i32 } else { Type::Adjin as i32 },
+                    init,
+                    peer_address: String::new(),
+                    peer_group: String::new(),
+                }],
+            }),
+            batch_size: 0,
+        };
+        // the handler subscribes (scheduling points fire on this thread) and spawns its worker task
+        let resp = rt.block_on(svc.watch_event(tonic::Request::new(req))).ok()?;
+        let mut w = WatchRun { rt, svc, stream: resp.into_inner(), got: Vec::new() };
+        w.pump();
+        Some(w)
+    }
+
+    /// Run the worker task until it is waiting for events and the stream is drained.
+    fn pump(&mut self) {
+        let WatchRun { rt, stream, got, .. } = self;
+        rt.block_on(async {
+            let mut idle = 0;
+            while idle < 3 {
+                tokio::task::yield_now().await;
+                let mut any = false;
+                while let std::task::Poll::Ready(Some(r)) = futures::poll!(stream.next()) {
+                    any = true;
+                    if let Ok(r) = r {
+                        got.push(r);
+                    }
+                }
+                idle = if any { 0 } else { idle + 1 };
+            }
+        });
+    }
+
+    fn finish(mut self) -> Vec<api::WatchEventResponse> {
+        self.pump();
+        std::mem::take(&mut self.got)
+    }
 }
 
 struct ThreadOut {
@@ -554,6 +760,8 @@ fn peer_up_data(p: usize) -> PeerUpData {
 
 struct Writer {
     tid: usize,
+    addpath: bool,
+    peer_rx: Option<mpsc::UnboundedReceiver<ToPeerEvent>>,
     state: Arc<PeerState>,
     context: Arc<std::sync::Mutex<PeerContext>>,
     session: PeerSession,
@@ -580,6 +788,7 @@ fn run_ops(
     tables: &TableHandle,
     global: &GlobalHandle,
     peer: Option<(Arc<PeerState>, Arc<std::sync::Mutex<PeerContext>>)>,
+    addpath: bool,
     sched: &Sched,
     tab: &[Vec<u8>],
 ) -> ThreadOut {
@@ -590,7 +799,7 @@ fn run_ops(
     let _enter = peer.as_ref().map(|_| rt.enter());
     let mut w = peer.map(|(state, context)| {
         let session = Writer::new_session(tid, &state, &context, tables);
-        Writer { tid, state, context, session, counter: Arc::new(AtomicU64::new(0)) }
+        Writer { tid, addpath, peer_rx: None, state, context, session, counter: Arc::new(AtomicU64::new(0)) }
     });
     let fams: Vec<Family> = FAMS.to_vec();
     for op in ops {
@@ -604,6 +813,9 @@ fn run_ops(
                     local: "10.0.0.254:179".parse().unwrap(),
                     remote_port: 10000,
                 })));
+                // on_established: the peer's channel (and its ADD-PATH families) is registered with every shard
+                let set: FnvHashSet<Family> = if w.addpath { FAMS.iter().copied().collect() } else { FnvHashSet::default() };
+                w.peer_rx = Some(tables.register_peer(peer_addr(tid), set, |_| {}));
                 tables.peer_up(peer_up_data(tid));
             }
             Op::Down | Op::GDown => {
@@ -663,6 +875,11 @@ fn run_ops(
                 out.subs.push(SubKind::Chan(SubRec { sub, want: *want, live: true }));
             }
             Op::Bmp => out.subs.push(SubKind::Bmp(Serve::start(tables.clone(), global.clone()))),
+            Op::Mrt => out.subs.push(SubKind::Mrt(MrtRun::start(tables.clone()))),
+            Op::Watch(init, post) => match WatchRun::start(tables.clone(), global.clone(), *init, *post) {
+                Some(w) => out.subs.push(SubKind::Watch(w, *init, *post)),
+                None => panic!("watch_event refused"),
+            },
             Op::Unsub => {
                 if let Some(r) = out.subs.iter_mut().rev().find_map(|s| match s {
                     SubKind::Chan(r) if r.live => Some(r),
@@ -744,15 +961,15 @@ fn run_case(line: &str) -> Option<String> {
     });
     let mut handles = Vec::new();
     for (tid, (_, ops)) in case.threads.iter().enumerate() {
-        let (ops, tables, global, sched, limit, peer) =
-            (ops.clone(), tables.clone(), global.clone(), sched.clone(), case.limit, peers[tid].clone());
+        let (ops, tables, global, sched, limit, peer, ap) =
+            (ops.clone(), tables.clone(), global.clone(), sched.clone(), case.limit, peers[tid].clone(), case.addpath[tid]);
         handles.push(std::thread::spawn(move || {
             let s2 = sched.clone();
             verif_sched::HOOK.with(|h| {
                 *h.borrow_mut() = Some(Box::new(move |kind, arg| s2.point(tid, kind, arg)));
             });
             let r = std::panic::catch_unwind(std::panic::AssertUnwindSafe(|| {
-                run_ops(tid, &ops, limit, &tables, &global, peer, &sched, tab)
+                run_ops(tid, &ops, limit, &tables, &global, peer, ap, &sched, tab)
             }));
             verif_sched::HOOK.with(|h| *h.borrow_mut() = None);
             sched.finish(tid, r.is_err());
@@ -774,27 +991,10 @@ fn run_case(line: &str) -> Option<String> {
         return Some("(stale-subscriber-list)".into());
     }
 
-    // BMP connections: let every serve process what is still in its channel, then close them
     let nthreads = case.threads.len();
-    let mut wires: Vec<Vec<Vec<WireMsg>>> = Vec::new(); // per thread, per bmp subscription
-    let mut outs2 = Vec::new();
-    for o in outs {
-        let mut w = Vec::new();
-        let mut subs = Vec::new();
-        for s in o.subs {
-            match s {
-                SubKind::Bmp(sv) => {
-                    w.push(sv.finish());
-                    subs.push(None);
-                }
-                SubKind::Chan(r) => subs.push(Some(r)),
-            }
-        }
-        wires.push(w);
-        outs2.push((o.rets, subs));
-    }
+    let is_ap = |p: usize| case.addpath.get(p).copied().unwrap_or(false);
 
-    // final RIB
+    // final RIB (before the marker route goes in)
     let mut extra = 0u64;
     let mut rib: Vec<(Option<u64>, Option<u64>)> = vec![(None, None); uni.len()];
     let (mut rows_pre, mut rows_post) = (0u64, 0u64);
@@ -818,85 +1018,40 @@ fn run_case(line: &str) -> Option<String> {
         }
     }
 
-    // subscriptions
-    let mut subs_t = Vec::new();
-    for (tid, (_, subs)) in outs2.iter_mut().enumerate() {
-        let mut bmp_iter = std::mem::take(&mut wires[tid]).into_iter();
-        for (nth, rec) in subs.iter_mut().enumerate() {
-            let Some(rec) = rec else {
-                // ---- a BMP connection: decode what the real serve wrote
-                let msgs = bmp_iter.next().unwrap();
-                let mut whist: Vec<(Vec<Term>, Vec<Term>)> = vec![(Vec::new(), Vec::new()); uni.len()];
-                let mut wctl: Vec<Vec<Term>> = vec![Vec::new(); nthreads];
-                for m in msgs {
-                    if m.bad {
-                        return Some("(bad-wire)".into());
-                    }
-                    if m.ty == 4 || m.ty == 5 {
-                        continue;
-                    }
-                    let Some(addr) = m.addr else { return Some("(bad-wire)".into()) };
-                    let Some(p) = peer_of(&addr).filter(|p| *p < nthreads && m.peer_type == 0) else {
-                        extra += 1;
-                        continue;
-                    };
-                    match m.ty {
-                        3 => wctl[p].push(Term::tag("up", vec![Term::nat(p as u64)])),
-                        2 => {
-                            wctl[p].push(Term::tag("down", vec![Term::nat(p as u64)]));
-                            for (i, k) in uni.iter().enumerate() {
-                                if k.peer == p {
-                                    whist[i].0.push(Term::atom("d"));
-                                    whist[i].1.push(Term::atom("d"));
-                                }
-                            }
-                        }
-                        0 => {
-                            let post = m.flags & 0x40 != 0;
-                            for u in m.updates {
-                                let (fam, entries, v) = match u {
-                                    bgp::Message::Update(bgp::Update::Reach { family, entries, nexthop, attr }) => {
-                                        (family, entries, Some(val_of(&attr, nexthop)))
-                                    }
-                                    bgp::Message::Update(bgp::Update::Unreach { family, entries }) => (family, entries, None),
-                                    bgp::Message::Update(bgp::Update::EndOfRib(_)) => continue,
-                                    _ => {
-                                        extra += 1;
-                                        continue;
-                                    }
-                                };
-                                for n in &entries {
-                                    match key_of(&addr, fam, n) {
-                                        Some(i) => {
-                                            if post {
-                                                whist[i].1.push(item_t(v))
-                                            } else {
-                                                whist[i].0.push(item_t(v))
-                                            }
-                                        }
-                                        None => extra += 1,
-                                    }
-                                }
-                            }
-                        }
-                        _ => extra += 1,
-                    }
+    let hist_t = |h: Vec<(Vec<Term>, Vec<Term>)>| -> Vec<Term> {
+        h.into_iter().map(|(a, b)| Term::list(vec![Term::list(a), Term::list(b)])).collect()
+    };
+    let aps_t = |h: Vec<(Vec<bool>, Vec<bool>)>| -> Vec<Term> {
+        h.into_iter()
+            .map(|(a, b)| {
+                Term::list(vec![
+                    Term::list(a.into_iter().map(Term::boolean).collect()),
+                    Term::list(b.into_iter().map(Term::boolean).collect()),
+                ])
+            })
+            .collect()
+    };
+
+    // pass 1: channel subscriptions (their receivers hold everything already)
+    let mut slots: Vec<Vec<Option<Term>>> = Vec::new();
+    let mut pending: Vec<(usize, usize, SubKind)> = Vec::new();
+    let mut rets_all = Vec::new();
+    for (tid, o) in outs.into_iter().enumerate() {
+        rets_all.push(o.rets);
+        let mut row = Vec::new();
+        for (nth, sk) in o.subs.into_iter().enumerate() {
+            let mut rec = match sk {
+                SubKind::Chan(r) => r,
+                other => {
+                    row.push(None);
+                    pending.push((tid, nth, other));
+                    continue;
                 }
-                subs_t.push(Term::tag(
-                    "bmp",
-                    vec![
-                        Term::nat(tid as u64),
-                        Term::nat(nth as u64),
-                        Term::tag("whist", whist.into_iter().map(|(a, b)| Term::list(vec![Term::list(a), Term::list(b)])).collect()),
-                        Term::tag("wctl", wctl.into_iter().map(Term::list).collect()),
-                    ],
-                ));
-                continue;
             };
-            // ---- a channel subscription
             let mut ctl: Vec<Term> = Vec::new();
             let mut fwd: Vec<Term> = Vec::new();
             let mut hist: Vec<(Vec<Term>, Vec<Term>)> = vec![(Vec::new(), Vec::new()); uni.len()];
+            let mut aps: Vec<(Vec<bool>, Vec<bool>)> = vec![(Vec::new(), Vec::new()); uni.len()];
             let mut consumer = Consumer::new();
             // the BMP connection of this subscriber: opened at the first PeerUp/PeerDown it has to handle
             let mut wire: Option<Wire> = None;
@@ -907,8 +1062,11 @@ fn run_case(line: &str) -> Option<String> {
                         let v = c.attrs.as_ref().map(|a| val_of(a, c.nexthop));
                         for n in &c.nlris {
                             match key_of(&c.source.remote_addr, c.family, n) {
-                                Some(i) if !c.addpath => hist[i].0.push(item_t(v)),
-                                _ => extra += 1,
+                                Some(i) => {
+                                    hist[i].0.push(item_t(v));
+                                    aps[i].0.push(c.addpath);
+                                }
+                                None => extra += 1,
                             }
                         }
                         if rec.want && !seen_eos {
@@ -919,8 +1077,11 @@ fn run_case(line: &str) -> Option<String> {
                         let v = c.attrs.as_ref().map(|a| val_of(a, c.nexthop));
                         for n in &c.nlris {
                             match key_of(&c.source.remote_addr, c.family, n) {
-                                Some(i) if !c.addpath => hist[i].1.push(item_t(v)),
-                                _ => extra += 1,
+                                Some(i) => {
+                                    hist[i].1.push(item_t(v));
+                                    aps[i].1.push(c.addpath);
+                                }
+                                None => extra += 1,
                             }
                         }
                         if rec.want && !seen_eos {
@@ -994,7 +1155,7 @@ fn run_case(line: &str) -> Option<String> {
                     None => extra += 1,
                 }
             }
-            subs_t.push(Term::tag(
+            row.push(Some(Term::tag(
                 "sub",
                 vec![
                     Term::nat(tid as u64),
@@ -1002,19 +1163,244 @@ fn run_case(line: &str) -> Option<String> {
                     Term::boolean(rec.want),
                     Term::boolean(rec.live),
                     Term::tag("ctl", ctl),
-                    Term::tag(
-                        "hist",
-                        hist.into_iter().map(|(a, b)| Term::list(vec![Term::list(a), Term::list(b)])).collect(),
-                    ),
+                    Term::tag("hist", hist_t(hist)),
                     Term::tag("snap", snap.into_iter().map(|(a, b)| Term::list(vec![opt_t(a), opt_t(b)])).collect()),
                     Term::tag("fwd", fwd),
+                    Term::tag("aps", aps_t(aps)),
                 ],
-            ));
+            )));
         }
+        slots.push(row);
     }
-    let rets = outs2
+
+    // the marker route: once a consumer task has let it out, it has processed its whole channel
+    if !pending.is_empty() {
+        let (f, nlri) = nlri_of(MARKER_PREFIX);
+        tables.insert_route(
+            new_source(MARKER_PEER),
+            f,
+            packet::PathNlri::new(nlri),
+            Some(nexthop_of(f, 1)),
+            attrs_of(1),
+            None,
+            0,
+        );
+    }
+
+    // pass 2: the consumer tasks
+    for (tid, nth, sk) in pending {
+        let mut whist: Vec<(Vec<Term>, Vec<Term>)> = vec![(Vec::new(), Vec::new()); uni.len()];
+        let mut wctl: Vec<Vec<Term>> = vec![Vec::new(); nthreads];
+        let term = match sk {
+            SubKind::Chan(_) => unreachable!(),
+            SubKind::Bmp(sv) => {
+                // ---- a BMP connection: decode what the real serve wrote
+                for m in sv.finish(&|p: &IpAddr| peer_of(p).is_some_and(&is_ap)) {
+                    if m.bad {
+                        return Some("(bad-wire)".into());
+                    }
+                    if m.ty == 4 || m.ty == 5 {
+                        continue;
+                    }
+                    let Some(addr) = m.addr else { return Some("(bad-wire)".into()) };
+                    if is_marker(&addr) {
+                        continue;
+                    }
+                    let Some(p) = peer_of(&addr).filter(|p| *p < nthreads && m.peer_type == 0) else {
+                        extra += 1;
+                        continue;
+                    };
+                    match m.ty {
+                        3 => wctl[p].push(Term::tag("up", vec![Term::nat(p as u64)])),
+                        2 => {
+                            wctl[p].push(Term::tag("down", vec![Term::nat(p as u64)]));
+                            for (i, k) in uni.iter().enumerate() {
+                                if k.peer == p {
+                                    whist[i].0.push(Term::atom("d"));
+                                    whist[i].1.push(Term::atom("d"));
+                                }
+                            }
+                        }
+                        0 => {
+                            let post = m.flags & 0x40 != 0;
+                            for u in m.updates {
+                                let (fam, entries, v) = match u {
+                                    bgp::Message::Update(bgp::Update::Reach { family, entries, nexthop, attr }) => {
+                                        (family, entries, Some(val_of(&attr, nexthop)))
+                                    }
+                                    bgp::Message::Update(bgp::Update::Unreach { family, entries }) => (family, entries, None),
+                                    bgp::Message::Update(bgp::Update::EndOfRib(_)) => continue,
+                                    _ => {
+                                        extra += 1;
+                                        continue;
+                                    }
+                                };
+                                for n in &entries {
+                                    match key_of(&addr, fam, n) {
+                                        Some(i) => {
+                                            if post {
+                                                whist[i].1.push(item_t(v))
+                                            } else {
+                                                whist[i].0.push(item_t(v))
+                                            }
+                                        }
+                                        None => extra += 1,
+                                    }
+                                }
+                            }
+                        }
+                        _ => extra += 1,
+                    }
+                }
+                Term::tag(
+                    "bmp",
+                    vec![
+                        Term::nat(tid as u64),
+                        Term::nat(nth as u64),
+                        Term::tag("whist", hist_t(whist)),
+                        Term::tag("wctl", wctl.into_iter().map(Term::list).collect()),
+                    ],
+                )
+            }
+            SubKind::Mrt(m) => {
+                // ---- an MRT updates dump: read the BGP4MP records back
+                let Some(recs) = m.finish() else { return Some("(bad-mrt)".into()) };
+                let mut aps: Vec<(Vec<bool>, Vec<bool>)> = vec![(Vec::new(), Vec::new()); uni.len()];
+                for (addr, ap, msgs) in recs {
+                    if is_marker(&addr) {
+                        continue;
+                    }
+                    for u in msgs {
+                        let (fam, entries, v) = match u {
+                            bgp::Message::Update(bgp::Update::Reach { family, entries, nexthop, attr }) => {
+                                (family, entries, Some(val_of(&attr, nexthop)))
+                            }
+                            bgp::Message::Update(bgp::Update::Unreach { family, entries }) => (family, entries, None),
+                            _ => {
+                                extra += 1;
+                                continue;
+                            }
+                        };
+                        for n in &entries {
+                            match key_of(&addr, fam, n) {
+                                Some(i) => {
+                                    whist[i].0.push(item_t(v));
+                                    aps[i].0.push(ap);
+                                }
+                                None => extra += 1,
+                            }
+                        }
+                    }
+                }
+                Term::tag(
+                    "mrt",
+                    vec![
+                        Term::nat(tid as u64),
+                        Term::nat(nth as u64),
+                        Term::tag("whist", hist_t(whist)),
+                        Term::tag("aps", aps_t(aps)),
+                    ],
+                )
+            }
+            SubKind::Watch(w, init, post) => {
+                // ---- a gRPC watch stream: peer events and table events
+                use api::watch_event_response::{Event, peer_event};
+                for r in w.finish() {
+                    match r.event {
+                        Some(Event::Peer(pe)) => {
+                            let ty = peer_event::Type::try_from(pe.r#type).ok();
+                            if ty == Some(peer_event::Type::EndOfInit) {
+                                continue;
+                            }
+                            let Some(peer) = pe.peer else {
+                                extra += 1;
+                                continue;
+                            };
+                            let addr: Option<IpAddr> = peer.conf.as_ref().and_then(|c| c.neighbor_address.parse().ok());
+                            let up = peer.state.as_ref().map(|s| s.session_state)
+                                == Some(api::peer_state::SessionState::Established as i32);
+                            let Some(p) = addr.as_ref().and_then(peer_of).filter(|p| *p < nthreads) else {
+                                extra += 1;
+                                continue;
+                            };
+                            if up {
+                                wctl[p].push(Term::tag("up", vec![Term::nat(p as u64)]));
+                            } else {
+                                wctl[p].push(Term::tag("down", vec![Term::nat(p as u64)]));
+                                for (i, k) in uni.iter().enumerate() {
+                                    if k.peer == p {
+                                        if post {
+                                            whist[i].1.push(Term::atom("d"));
+                                        } else {
+                                            whist[i].0.push(Term::atom("d"));
+                                        }
+                                    }
+                                }
+                            }
+                        }
+                        Some(Event::Table(te)) => {
+                            for path in te.paths {
+                                let addr: Option<IpAddr> = path.neighbor_ip.parse().ok();
+                                if addr.as_ref().is_some_and(is_marker) {
+                                    continue;
+                                }
+                                let fam = path.family.as_ref().map(convert::family_from_api);
+                                let net = match (path.nlri, fam) {
+                                    (Some(n), Some(f)) => convert::net_from_api(n, f).ok(),
+                                    _ => None,
+                                };
+                                let (Some(addr), Some(fam), Some(nlri)) = (addr, fam, net) else {
+                                    extra += 1;
+                                    continue;
+                                };
+                                let pn = packet::PathNlri { path_id: path.identifier, nlri };
+                                let Some(i) = key_of(&addr, fam, &pn) else {
+                                    extra += 1;
+                                    continue;
+                                };
+                                // the API path carries no next hop: the value is completed from the MED
+                                let v = if path.is_withdraw {
+                                    None
+                                } else {
+                                    let attrs: Vec<packet::Attribute> =
+                                        path.pattrs.into_iter().filter_map(|a| convert::attr_from_api(a).ok()).collect();
+                                    let med = attrs
+                                        .iter()
+                                        .find(|a| a.code() == packet::Attribute::MULTI_EXIT_DESC)
+                                        .and_then(|a| a.value())
+                                        .unwrap_or(0);
+                                    Some(val_of(&attrs, Some(nexthop_of(fam, med))))
+                                };
+                                if post {
+                                    whist[i].1.push(item_t(v));
+                                } else {
+                                    whist[i].0.push(item_t(v));
+                                }
+                            }
+                        }
+                        None => extra += 1,
+                    }
+                }
+                Term::tag(
+                    "watch",
+                    vec![
+                        Term::nat(tid as u64),
+                        Term::nat(nth as u64),
+                        Term::boolean(init),
+                        Term::boolean(post),
+                        Term::tag("whist", hist_t(whist)),
+                        Term::tag("wctl", wctl.into_iter().map(Term::list).collect()),
+                    ],
+                )
+            }
+        };
+        slots[tid][nth] = Some(term);
+    }
+
+    let subs_t: Vec<Term> = slots.into_iter().flatten().flatten().collect();
+    let rets = rets_all
         .iter()
-        .map(|(r, _)| Term::list(r.iter().map(|r| Term::atom(*r)).collect()))
+        .map(|r| Term::list(r.iter().map(|r| Term::atom(*r)).collect()))
         .collect();
     Some(
         Term::tag(
